@@ -198,8 +198,9 @@ theorem parseBytes_spec (header : List Nat) (size : Nat) (hs : size ≤ u64Max) 
           simp at h; subst h
           exact hc.2 rs no hcr r hr
 
-/-- **the files range block never panics on a non-empty file** (`size` is the file's `u64` length) -/
-theorem fileRange_noPanic (header : List Nat) (size : Nat) (hpos : 0 < size) (hs : size ≤ u64Max) :
+/-- **the files range block never panics**, for every header and every `u64` file size
+(a zero-length range is filtered out before `offset + length - 1`) -/
+theorem fileRange_noPanic (header : List Nat) (size : Nat) (hs : size ≤ u64Max) :
     NoPanic (fileRange header size) := by
   unfold fileRange
   split
@@ -215,15 +216,17 @@ theorem fileRange_noPanic (header : List Nat) (size : Nat) (hpos : 0 < size) (hs
       | none => simp
       | some r =>
         have hmem : r ∈ rs := List.mem_of_mem_head? hh
-        obtain ⟨hle, hlen⟩ := hp.2 rs hpb r hmem
-        have h1 : uadd u64Max "named.rs:562 offset + length" r.start r.length = .ok (r.start + r.length) :=
-          uadd_ok (by omega)
-        have h2 : usub "named.rs:562 offset + length - 1" (r.start + r.length) 1 = .ok (r.start + r.length - 1) :=
-          usub_ok (by have := hlen hpos; omega)
-        simp [h1, h2]
+        obtain ⟨hle, _⟩ := hp.2 rs hpb r hmem
+        by_cases hpos : r.length > 0
+        · have h1 : uadd u64Max "named.rs:562 offset + length" r.start r.length = .ok (r.start + r.length) :=
+            uadd_ok (by omega)
+          have h2 : usub "named.rs:562 offset + length - 1" (r.start + r.length) 1 = .ok (r.start + r.length - 1) :=
+            usub_ok (by omega)
+          simp [Option.filter, hpos, h1, h2]
+        · simp [Option.filter, hpos]
 
 /-- and the `Content-Range` it announces is inside the file: `first ≤ last < size` -/
-theorem fileRange_bounds (header : List Nat) (size f l sz len : Nat) (hpos : 0 < size)
+theorem fileRange_bounds (header : List Nat) (size f l sz len : Nat)
     (hs : size ≤ u64Max) (h : fileRange header size = .ok (.partial_ f l sz len)) :
     f ≤ l ∧ l < size ∧ sz = size ∧ l + 1 = f + len := by
   unfold fileRange at h
@@ -242,14 +245,15 @@ theorem fileRange_bounds (header : List Nat) (size f l sz len : Nat) (hpos : 0 <
       | some r =>
         rw [hh] at h
         have hmem : r ∈ rs := List.mem_of_mem_head? hh
-        obtain ⟨hle, hlen⟩ := hp.2 rs hpb r hmem
-        have h1 : uadd u64Max "named.rs:562 offset + length" r.start r.length = .ok (r.start + r.length) :=
-          uadd_ok (by omega)
-        have h2 : usub "named.rs:562 offset + length - 1" (r.start + r.length) 1 = .ok (r.start + r.length - 1) :=
-          usub_ok (by have := hlen hpos; omega)
-        simp [h1, h2] at h
-        obtain ⟨rfl, rfl, rfl, rfl⟩ := h
-        have := hlen hpos
-        omega
+        obtain ⟨hle, _⟩ := hp.2 rs hpb r hmem
+        by_cases hpos : r.length > 0
+        · have h1 : uadd u64Max "named.rs:562 offset + length" r.start r.length = .ok (r.start + r.length) :=
+            uadd_ok (by omega)
+          have h2 : usub "named.rs:562 offset + length - 1" (r.start + r.length) 1 = .ok (r.start + r.length - 1) :=
+            usub_ok (by omega)
+          simp [Option.filter, hpos, h1, h2] at h
+          obtain ⟨rfl, rfl, rfl, rfl⟩ := h
+          omega
+        · simp [Option.filter, hpos] at h
 
 end ActixModel.Panic.Range
